@@ -6,6 +6,7 @@ import (
 	"encoding/json"
 	"errors"
 	"fmt"
+	"math"
 	"time"
 
 	"github.com/esimov/gogu"
@@ -24,6 +25,10 @@ type memProg struct {
 	Threads [][]string `json:"threads"` // per thread: "m0" "m1" (Memoize of key 0/1), "adv<d>"
 	Fail    []int      `json:"fail"`    // execution numbers (1-based) that return an error
 	FailIt  []int      `json:"failit"`  // ... that return an error TOGETHER WITH an item
+	// Gate: the computation of key 0 does not finish before some thread has made the step "open" - which
+	// the programs place behind a call for ANOTHER key: if that call is held up by the computation of
+	// key 0 nothing can move any more
+	Gate bool `json:"gate,omitempty"`
 	// steps: "m0" "m1" Memoize of key 0/1; "adv<d>" clock jump; "sweep" = Cache.DeleteExpired(), what the
 	// background cleanup calls on every tick (the cleanup goroutine itself is not a model thread)
 }
@@ -42,6 +47,9 @@ func memRun(p memProg, run func(bodies []func()) *vsync.Result) ([]tt.Op, error)
 	vtime.OnJump = func(d time.Duration) { logEv(&ev, op("adv", int(d/time.Millisecond))) }
 	defer func() { vtime.OnJump = nil }()
 	exp := time.Duration(p.Exp) * time.Millisecond
+	if p.Exp == 2000000000 { // "for ever" spelled as the largest duration: the deadline does not fit an int64
+		exp = time.Duration(math.MaxInt64)
+	}
 	if p.Exp <= 0 {
 		exp = cache.NoExpiration
 	}
@@ -62,12 +70,22 @@ func memRun(p memProg, run func(bodies []func()) *vsync.Result) ([]tt.Op, error)
 		failIt[e] = true
 	}
 	nexec := 0
+	var gmu vsync.Mutex
+	gcond := vsync.NewCond(&gmu)
+	opened := false
 	var bodies []func()
 	threads := append([][]string{p.Pre}, p.Threads...)
 	for ti, ops := range threads {
 		id, ops := ti, ops // the prefix runs as thread 0, outside the scheduler
 		body := func() {
 			for _, o := range ops {
+				if o == "open" {
+					gmu.Lock()
+					opened = true
+					gcond.Broadcast()
+					gmu.Unlock()
+					continue
+				}
 				if o == "sweep" {
 					m.Cache.DeleteExpired()
 					logEv(&ev, op("sweep"))
@@ -93,6 +111,13 @@ func memRun(p memProg, run func(bodies []func()) *vsync.Result) ([]tt.Op, error)
 					}
 					logEv(&ev, op("fnstart", th, k, e))
 					vsync.Point() // the computation takes a while: anything may happen meanwhile
+					if p.Gate && k == 0 {
+						gmu.Lock()
+						for !opened {
+							gcond.Wait()
+						}
+						gmu.Unlock()
+					}
 					if failIt[e] && e <= 8 {
 						logEv(&ev, op("fnend", e, 0, 0))
 						return items[e], errMemo // an error is an error, whatever comes with it
@@ -187,6 +212,15 @@ func memPrograms(full bool) []memProg {
 		for _, th := range [][][]string{{{"m0", "m0"}, {"sweep"}}, {{"m0"}, {"sweep"}, {"m0"}}, {{"m0", "m0"}, {"sweep", "m0"}}} {
 			out = append(out, memProg{Exp: 5, Pre: pre, Threads: th})
 		}
+	}
+	// a call for another key goes through while a computation is in flight and has been joined
+	for _, th := range [][][]string{{{"m0"}, {"m0"}, {"m1", "open"}}, {{"m0"}, {"m1", "open"}}, {{"m0"}, {"m0"}, {"m0"}, {"m1", "open"}}} {
+		out = append(out, memProg{Exp: 0, Threads: th, Gate: true})
+	}
+	// a lifetime beyond what a nanosecond timestamp can hold
+	for _, th := range [][][]string{{{"m0", "m0"}, {"m0"}}, {{"m0", "adv6", "m0"}, {"m1"}}} {
+		out = append(out, memProg{Exp: 2000000000, Threads: th})
+		out = append(out, memProg{Exp: 2000000000, Pre: []string{"m0", "adv6"}, Threads: th})
 	}
 	fails := [][]int{{}, {1}, {2}, {1, 2}}
 	for _, exp := range []int{0, 5} {
